@@ -50,7 +50,9 @@ def law_configs(seed, tier):
         kind = KINDS[j % len(KINDS)]
         ew = nw = None
         if kind == "fast_nodew":
-            nw = rng.choice(["dyadic", "tenth", "twolevel"])
+            # zero node weights included: a node that never recovers takes its
+            # own branch of the fast path (repaired defect, see known_findings)
+            nw = rng.choice(["dyadic", "tenth", "twolevel", "somezero", "somezero"])
         if kind == "general_edgew":
             ew = rng.choice(["dyadic", "tenth", "twolevel", "somezero"])
             nw = rng.choice([None, "tenth"])
